@@ -43,7 +43,7 @@ ResetTo(x) ==
   /\ qtick' = 1
   /\ queue' = <<>> /\ running' = FALSE
   /\ veto' = {} /\ nest' = <<>>
-  /\ pan' = {} /\ stall' = {} /\ wedged' = FALSE /\ backoff' = FALSE
+  /\ pan' = {} /\ stall' = {} /\ dead' = {} /\ wedged' = FALSE /\ backoff' = FALSE
   /\ first' = "none" /\ atCall' = None /\ firstTx' = None
   /\ prev' = None /\ obs' = [kind |-> "init"]
   /\ verdict' = AllTrue
@@ -72,9 +72,10 @@ EvInit ==
 
 EvCall ==
   /\ Line.ev = "call"
-  /\ CallF(Line.type, Line.called, Line.check, PairSet(Line.veto), NestOf(Line.nest),
-           IF "panic" \in DOMAIN Line THEN PairSet(Line.panic) ELSE {},
-           IF "stall" \in DOMAIN Line THEN PairSet(Line.stall) ELSE {})
+  /\ CallFD(Line.type, Line.called, Line.check, PairSet(Line.veto), NestOf(Line.nest),
+            IF "panic" \in DOMAIN Line THEN PairSet(Line.panic) ELSE {},
+            IF "stall" \in DOMAIN Line THEN PairSet(Line.stall) ELSE {},
+            IF "dead" \in DOMAIN Line THEN PairSet(Line.dead) ELSE {})
   /\ callStart' = l
   /\ UNCHANGED <<viol, drift, ntx>>
 
@@ -151,9 +152,10 @@ EvTx ==
      IN /\ active' = o.after
         /\ clock' = ClockOf(idx, o.mtime)
         /\ qtick' = o.qtick
-        /\ queue' = excs \o autoq
-                     \o NestedAppend(IF queue = <<>> THEN <<>> ELSE Tail(queue), o.hlog, qt)
-        /\ wedged' = r.wedged /\ backoff' = backoff
+        /\ queue' = IF DeadHit(r) THEN DeadlineQueue(qt)
+                     ELSE excs \o autoq
+                          \o NestedAppend(IF queue = <<>> THEN <<>> ELSE Tail(queue), o.hlog, qt)
+        /\ wedged' = r.wedged /\ backoff' = (backoff \/ DeadHit(r))
         /\ first' = IF first = "none" THEN r.result ELSE first
         /\ firstTx' = IF firstTx = None THEN o ELSE firstTx
         /\ prev' = p
@@ -162,7 +164,7 @@ EvTx ==
         /\ viol' = viol \cup {<<l, f>> : f \in Fails(v)}
         /\ drift' = drift \cup {<<l, f>> : f \in d}
         /\ ntx' = ntx + 1
-        /\ pan' = pan \ r.fired /\ stall' = stall \ r.fired
+        /\ pan' = pan \ r.fired /\ stall' = stall \ r.fired /\ dead' = dead \ r.fired
         /\ nest' = NestLeft(o.hlog)
         /\ UNCHANGED <<cfgVars, running, veto, atCall, ncalls, callStart>>
 
@@ -173,6 +175,7 @@ FiredIn(k, S) == \E i \in 1..Len(Trace[k].hlog) :
                    /\ <<Trace[k].hlog[i].b, Trace[k].hlog[i].h>> \notin veto
 CallPan == IF "panic" \in DOMAIN Trace[callStart] THEN PairSet(Trace[callStart].panic) ELSE {}
 CallStall == IF "stall" \in DOMAIN Trace[callStart] THEN PairSet(Trace[callStart].stall) ELSE {}
+CallDead == IF "dead" \in DOMAIN Trace[callStart] THEN PairSet(Trace[callStart].dead) ELSE {}
 IsExcLine(k) == SHas(Trace[k].mut.called, "Exception")
 
 EvRet ==
@@ -193,8 +196,12 @@ EvRet ==
          panicOutside == \E k \in CallTxLines : ~IsExcLine(k) /\ FiredIn(k, CallPan)
          faultInExc == \E k \in CallTxLines : IsExcLine(k) /\ FiredIn(k, CallPan \cup CallStall)
          stallFired == \E k \in CallTxLines : FiredIn(k, CallStall)
+         \* a handler that outlives HandlerDeadline as well: the timeout is reported
+         \* as an error the machine carries (Exception active, Err() = handler timeout)
+         deadFired == \E k \in CallTxLines : ~IsExcLine(k) /\ FiredIn(k, CallDead)
          c08ret == /\ (panicOutside /\ ~faultInExc) => (x.iserr /\ x.errhas)
                    /\ stallFired => x.errinternal >= 1
+                   /\ deadFired => (x.iserr /\ x.errtimeout)
          \* C03: CanAdd / CanRemove answered what the same mutation, issued next,
          \* returns (non-Multi called states; the scripted handlers ignore the check flag)
          cl == Trace[callStart]
@@ -234,7 +241,7 @@ EvRet ==
         /\ viol' = viol \cup {<<l, f>> : f \in Fails(v)}
         /\ drift' = drift \cup {<<l, f>> : f \in d}
         /\ first' = "none" /\ atCall' = None /\ firstTx' = None
-        /\ UNCHANGED <<cfgVars, veto, nest, pan, stall, wedged, backoff, ncalls, ntx, callStart>>
+        /\ UNCHANGED <<cfgVars, veto, nest, pan, stall, dead, wedged, backoff, ncalls, ntx, callStart>>
 
 EvStray ==   \* a tracer / handler callback outside any transition
   /\ Line.ev = "stray"
